@@ -26,7 +26,7 @@ ASSUMPTIONS = [
     "ValueError 'Angular momentum is not defined' of form-factor builders is the documented contract (skipped, counted)",
 ]
 BUDGET = {
-    "quick": {"examples": 640, "shards": 16, "cap_s": 150, "shrink_calls": 40, "shrink_s": 90, "case_timeout_s": 45},
+    "quick": {"examples": 512, "shards": 16, "cap_s": 120, "shrink_calls": 40, "shrink_s": 90, "case_timeout_s": 45},
     "thorough": {"examples": 10000, "shards": 16, "cap_s": 2400, "shrink_calls": 150, "shrink_s": 300, "case_timeout_s": 240},
 }
 
